@@ -84,7 +84,11 @@ LEVEL_NOTE = ('Trusted: ref/t2layout.py reference columns and reader/writer, ref
               'In pairs the moves are reduced to three per section; triples are not explored; values are a fixed '
               'alphabet (numeric limits are C02).')
 
-CASE_TIMEOUT = 60
+CASE_TIMEOUT = 30            # a case needs about 0.02 s
+FILE_TIMEOUT = 600
+SIZE_CAP = 4 << 20           # a generated model writes < 20 kB; real files at most 20 x their own size
+MAX_TIMEOUTS = 3             # per worker process: after that the remaining cases are not run (cap_hit)
+MSG = 600                    # longest message kept
 SECTIONS = ['SIMUL', 'ROCKS', 'PARAM', 'MOMOP', 'START', 'NOVER', 'RPCAP', 'LINEQ', 'SOLVR', 'MULTI', 'TIMES',
             'SELEC', 'DIFFU', 'ELEME', 'CONNE', 'MESHM', 'GENER', 'SHORT', 'FOFT', 'COFT', 'GOFT', 'INCON', 'INDOM']
 XP_ALL = ['ROCKS', 'ELEME', 'CONNE', 'RPCAP', 'GENER']
@@ -929,6 +933,8 @@ def units(tier):
     us = []
     for path, mesh in REAL_FILES:
         us.append(('file', path, mesh))
+    us.append(('history', 'AUTOUGH2'))
+    us.append(('history', 'TOUGH2'))
     n = len(enumerate_cases(tier))
     size = 40 if tier == 'quick' else 150
     for start in range(0, n, size):
@@ -943,6 +949,8 @@ def run_unit(unit, tier, rec):
     if unit[0] == 'file':
         case = {'file': unit[1], 'meshfile': unit[2]}
         viol, info = run_file_case(case)
+        if info.get('cap'):
+            rec.count('cap_hit', 1)
         rec.case(('file', unit[1], repr(unit[2])), nontrivial=info.get('written', False), outcome=info.get('outcome'))
         rec.count('real_files', 1)
         for sig, what in viol:
@@ -952,6 +960,17 @@ def run_unit(unit, tier, rec):
         if 'reference_writer' in info:
             rec.count('real_files_not_rendered_by_reference_writer', 1)
         return
+    if unit[0] == 'history':
+        case = {'history': unit[1]}
+        viol, info = run_case(case)
+        if info.get('cap'):
+            rec.count('cap_hit', 1)
+        rec.case(('history', unit[1]), nontrivial=info.get('written', False), outcome=info.get('outcome'))
+        rec.count('history_comparisons', info.get('comparisons', 0))
+        for sig, what in viol:
+            rec.violation(sig, what, case)
+        rec.sample({'history': unit[1], 'comparisons': info.get('steps_done')}, force=True)
+        return
     if tier not in _case_cache:
         _case_cache[tier] = enumerate_cases(tier)
     cases = _case_cache[tier][unit[1]:unit[2]]
@@ -960,6 +979,14 @@ def run_unit(unit, tier, rec):
         if info.get('outcome') == 'not-applicable':
             rec.count('cases_not_applicable', 1)       # second deviation has nothing left to act on, or mode exclusion
             continue
+        if info.get('cap'):
+            # this worker had MAX_TIMEOUTS hanging cases: the rest of the unit is not run, and the run is
+            # not exhaustive (the violation says so; exit status 1, never a dead worker)
+            rec.count('cap_hit', 1)
+            rec.count('cases_not_run_after_timeouts', len(cases) - cases.index(case))
+            for sig, what in viol:
+                rec.violation(sig, what, case)
+            break
         rec.case(case_key(case), nontrivial=info.get('written', False), outcome=info.get('outcome'))
         rec.count('k=%d' % len(case['devs']), 1)
         rec.count('chain_steps', info.get('steps', 0))
@@ -978,6 +1005,8 @@ def case_key(case):
 def replay(case):
     if 'file' in case:
         return run_file_case(case)[0]
+    if 'history' in case:
+        return run_case(case)[0]
     case = dict(case)
     case['devs'] = [_tuplify(d) for d in case['devs']]
     return run_case(case)[0]
@@ -1187,9 +1216,48 @@ def _norm_model(M):
     return M
 
 
+_timeouts = [0]
+
+
+def _guarded(fn, inp, limit):
+    """Runs one case: whatever happens becomes a violation, never a dead worker.  CaseTimeout is caught only
+    outside the timelimit block (the limit re-fires until the exception has left it)."""
+    info = {'written': False}
+    if _timeouts[0] >= MAX_TIMEOUTS:
+        return [('C01|case|not-run-after-%d-timeouts' % MAX_TIMEOUTS,
+                 'case not run: this worker process already had %d cases that did not finish' % MAX_TIMEOUTS)], \
+            {'outcome': 'skipped-after-timeouts', 'written': False, 'cap': True}
+    _state_snapshot()
+    try:
+        try:
+            with core.timelimit(limit):
+                viol, info = fn()
+        except core.CaseTimeout:
+            _timeouts[0] += 1
+            viol, info = [('C01|chain|timeout|%s' % inp, 'case did not finish in %d s' % limit)], \
+                {'outcome': 'timeout', 'written': False}
+        except _TooBig as e:
+            viol, info = [e.args[0]], {'outcome': 'file-size-explodes', 'written': True}
+        except MemoryError:
+            viol, info = [('C01|chain|raises-MemoryError|%s' % inp, 'case ran out of memory')], \
+                {'outcome': 'raised', 'written': False}
+        except Exception as e:
+            viol, info = [_exc_sig('case', e, inp)], {'outcome': 'raised', 'written': False}
+        with core.timelimit(limit):
+            viol = list(viol) + _state_check(inp)
+    except core.CaseTimeout:
+        # fired between or after the blocks above (late signal): still a timeout of this case
+        _timeouts[0] += 1
+        viol, info = [('C01|chain|timeout|%s' % inp, 'case did not finish in %d s' % limit)], \
+            {'outcome': 'timeout', 'written': False}
+    return [(sig[:240], what[:MSG]) for sig, what in viol], info
+
+
 def run_case(case):
     """-> (violations [(sig, what)], info)."""
     core.load_library()
+    if 'history' in case:
+        return _guarded(lambda: _history(case['history']), 'history:' + case['history'][0], CASE_TIMEOUT)
     res = model_of_case(case)
     if res is None:
         return [], {'outcome': 'not-applicable', 'written': False}
@@ -1207,24 +1275,117 @@ def run_case(case):
                                     (dv[1] == 'conne' and 'CONNE' not in (mode['xp'] or ()) and
                                      set(dv[2]) & set(['direction', 'distance1', 'distance2', 'area', 'dircos']))):
                 return [], {'outcome': 'not-applicable', 'written': False}
-    try:
-        with core.timelimit(CASE_TIMEOUT):
-            return _chain(M, order, mode, flavour, end_kw)
-    except core.CaseTimeout:
-        return [('C01|chain|timeout|%s' % flavour, 'case did not finish in %d s' % CASE_TIMEOUT)], \
-            {'outcome': 'timeout', 'written': False}
+    return _guarded(lambda: _chain(M, order, mode, flavour, end_kw), flavour[0], CASE_TIMEOUT)
 
 
 def _exc_sig(step, e, inp):
-    import traceback
-    tb = traceback.extract_tb(e.__traceback__)
+    """Signature of an exception escaping the library: innermost library frame (no source look-up)."""
     where = '?'
-    for fr in reversed(tb):
-        if os.path.dirname(fr.filename) == os.path.realpath(core.REPO) or fr.filename.startswith(core.REPO):
-            where = '%s:%s' % (os.path.basename(fr.filename), fr.name)
-            break
+    tb = e.__traceback__
+    repo = os.path.realpath(core.REPO)
+    while tb is not None:
+        fn = tb.tb_frame.f_code.co_filename
+        if os.path.realpath(os.path.dirname(fn)) == repo:
+            where = '%s:%s' % (os.path.basename(fn), tb.tb_frame.f_code.co_name)
+        tb = tb.tb_next
     return ('C01|%s|raises-%s|%s|%s' % (step, type(e).__name__, where, inp),
             '%s raised %s: %s' % (step, type(e).__name__, str(e)[:200]))
+
+
+class _TooBig(Exception):
+    pass
+
+
+def _size_guard(d, step, cap, tag, inp):
+    """A write whose files explode is reported and the chain stops (nothing that big is read back)."""
+    total = 0
+    sd = os.path.join(d, step)
+    for f in os.listdir(sd):
+        total += os.path.getsize(os.path.join(sd, f))
+    if total > cap:
+        raise _TooBig(('C01|%s|file-size-explodes|%s' % (tag, inp),
+                       '%s wrote %d bytes, more than %d' % (tag, total, cap)))
+
+
+# ---- module-level state of the library: must not be changed by reading, writing or editing objects
+
+_LIB_MODULES = ('t2data', 't2grids', 't2incons', 'mulgrids', 'fixed_format_file')
+_state0 = None
+
+
+def _fingerprint(v):
+    try:
+        import numpy as np
+        if isinstance(v, np.ndarray):
+            return ('nd', v.tolist())
+    except Exception:
+        pass
+    if isinstance(v, dict):
+        return ('d', [(repr(k), _fingerprint(x)) for k, x in v.items()])
+    if isinstance(v, (list, tuple)):
+        return ('l', [_fingerprint(x) for x in v])
+    if isinstance(v, (set, frozenset)):
+        return ('s', sorted(repr(x) for x in v))
+    if isinstance(v, (int, float, str, bytes, bool)) or v is None:
+        return v
+    return ('o', type(v).__name__)
+
+
+def _lib_globals():
+    import sys
+    seen, out = set(), []
+    for m in _LIB_MODULES:
+        mod = sys.modules.get(m)
+        if mod is None:
+            continue
+        for name, v in sorted(vars(mod).items()):
+            if name.startswith('__') or not isinstance(v, (dict, list, set)) or id(v) in seen:
+                continue
+            seen.add(id(v))
+            out.append(('%s.%s' % (m, name), v))
+    return out
+
+
+def _state_snapshot():
+    """Taken once per process, before the first case touches the library."""
+    global _state0
+    if _state0 is None:
+        for m in _LIB_MODULES:
+            __import__(m)
+        _state0 = dict((name, (copy.deepcopy(v), _fingerprint(v))) for name, v in _lib_globals())
+    return _state0
+
+
+def _state_check(inp):
+    """Module-level mutable data changed by a case -> violation, and the data is put back so that the
+    following cases are explored from the documented initial state (the leak is reported, not hidden, and it
+    cannot grow without bound)."""
+    viol = []
+    snap = _state_snapshot()
+    for name, v in _lib_globals():
+        if name not in snap:
+            continue
+        saved, fp = snap[name]
+        if _fingerprint(v) == fp:
+            continue
+        keys = ''
+        if isinstance(v, dict):
+            keys = '/' + '+'.join(sorted(str(k) for k in set(v) | set(saved)
+                                       if _fingerprint(v.get(k)) != _fingerprint(saved.get(k)))[:4])
+        viol.append(('C01|module-state|global-changed-by-case|%s%s' % (name, keys),
+                     'reading / writing / editing data objects changed the module-level %s%s (%s -> %s): state '
+                     'shared between all objects of the process'
+                     % (name, keys, repr(saved)[:120], repr(v)[:120])))
+        fresh = copy.deepcopy(saved)
+        if isinstance(v, dict):
+            v.clear()
+            v.update(fresh)
+        elif isinstance(v, list):
+            v[:] = fresh
+        else:
+            v.clear()
+            v.update(fresh)
+    return viol
 
 
 def _chain(M, order, mode, flavour, end_kw):
@@ -1261,6 +1422,7 @@ def _chain(M, order, mode, flavour, end_kw):
         return viol, info
     info['written'] = True
     info['steps'] = 1
+    _size_guard(d, 'w1', SIZE_CAP, 'write(obj)', inp)
     f1 = _files_of(d, 'w1', mode['mesh'])
     info['bytes'] = len(f1['main'])
     announced = list(dat._sections)
@@ -1279,6 +1441,8 @@ def _chain(M, order, mode, flavour, end_kw):
         viol.append(('C01|refread(w1)|unreadable|%s.%s|%s' % (e.rec, e.field, inp),
                      'reference reader cannot read the written file: %s' % e))
         R = None
+    except (core.CaseTimeout, MemoryError):
+        raise
     except Exception as e:
         viol.append(('C01|refread(w1)|unreadable|%s|%s' % (type(e).__name__, inp),
                      'reference reader failed on the written file: %r' % e))
@@ -1357,6 +1521,7 @@ def _chain(M, order, mode, flavour, end_kw):
         info['outcome'] = 'w2-raised'
         return viol, info
     info['steps'] = 3
+    _size_guard(d, 'w2', SIZE_CAP, 'write(r1)', inp)
     f2 = _files_of(d, 'w2', mode['mesh'])
     _compare_files(f1, f2, True, 'w2-vs-w1', inp, viol)
     try:
@@ -1366,7 +1531,10 @@ def _chain(M, order, mode, flavour, end_kw):
             remedy(r2)
             r2.write(os.path.join(d, 'w3', 'model.dat'), _mesh_arg(d, 'w3', mode['mesh']), **kw2)
             info['steps'] = 5
+            _size_guard(d, 'w3', SIZE_CAP, 'write(r2)', inp)
     except core.CaseTimeout:
+        raise
+    except _TooBig:
         raise
     except Exception as e:
         viol.append(_exc_sig('read(w2)/write(r2)', e, inp))
@@ -1419,12 +1587,7 @@ def _ref_written(M, order, exp_main, mode, flavour, end_kw, d, inp):
 
 def run_file_case(case):
     core.load_library()
-    try:
-        with core.timelimit(600):
-            return _file_chain(case)
-    except core.CaseTimeout:
-        return [('C01|file-chain|timeout|%s' % os.path.basename(case['file']), 'did not finish in 600 s')], \
-            {'outcome': 'timeout'}
+    return _guarded(lambda: _file_chain(case), 'file:' + os.path.basename(case['file']), FILE_TIMEOUT)
 
 
 def _file_chain(case):
@@ -1461,6 +1624,7 @@ def _file_chain(case):
     except Exception as e:
         return [_exc_sig('read(orig)', e, inp)], info
     c0 = t2canon.canon(r0)
+    cap = (1 << 20) + 20 * sum(os.path.getsize(os.path.join(d, 'orig', f)) for f in os.listdir(os.path.join(d, 'orig')))
     info['sections'] = list(r0._sections)
     flavour = 'AUTOUGH2' if r0.simulator else 'TOUGH2'
     xp = tuple(r0.extra_precision or ())
@@ -1470,17 +1634,20 @@ def _file_chain(case):
             m1, a1 = step_names('w1')
             r0.write(m1, a1)
             info['written'] = True
+            _size_guard(d, 'w1', cap, 'write(read(orig))', inp)
             f1 = _files_of(d, 'w1', mode_mesh)
             info['bytes'] = len(f1['main'])
             r1 = t2data.t2data(m1, a1)
             m2, a2 = step_names('w2')
             r1.write(m2, a2)
+            _size_guard(d, 'w2', cap, 'write(r1)', inp)
             f2 = _files_of(d, 'w2', mode_mesh)
             r2 = t2data.t2data(m2, a2)
             m3, a3 = step_names('w3')
             r2.write(m3, a3)
+            _size_guard(d, 'w3', cap, 'write(r2)', inp)
             f3 = _files_of(d, 'w3', mode_mesh)
-    except core.CaseTimeout:
+    except (core.CaseTimeout, _TooBig, MemoryError):
         raise
     except Exception as e:
         return [_exc_sig('file-chain', e, inp)], info
@@ -1542,6 +1709,117 @@ def _file_chain(case):
             raise
         except Exception as e:
             viol.append(_exc_sig('read(fortran-style)', e, inp))
+    info['outcome'] = 'ok' if not viol else 'violations'
+    return viol, info
+
+
+# --------------------------------------------------------------------------------------------------
+# history: what one object does must not show in another object of the same process
+
+
+def _plain(v, depth=0):
+    """Everything an object holds besides its grid and bound methods, as plain data."""
+    try:
+        import numpy as np
+        if isinstance(v, np.ndarray):
+            return v.tolist()
+        if isinstance(v, np.generic):
+            return v.item()
+    except Exception:
+        pass
+    if isinstance(v, dict):
+        return dict((str(k), _plain(x, depth + 1)) for k, x in v.items())
+    if isinstance(v, (list, tuple)):
+        return [_plain(x, depth + 1) for x in v]
+    if isinstance(v, (int, float, str, bool)) or v is None:
+        return v
+    return '<%s>' % type(v).__name__
+
+
+def _projection(dat):
+    raw = dict((k, _plain(v)) for k, v in vars(dat).items()
+               if k not in ('read_fn', 'write_fn', 'read_function', 'grid', 'filename', 'meshfilename', 'generator'))
+    return {'canon': t2canon.canon(dat), 'raw': raw}
+
+
+def _scribble(dat):
+    """Edits every mutable container of an object in place (the way user code does: append, item assignment)."""
+    import numpy as np
+    from t2grids import rocktype, t2block
+    for k, v in list(vars(dat).items()):
+        if isinstance(v, list):
+            v.append(1.0)
+        elif isinstance(v, np.ndarray):
+            v[...] = 7
+        elif isinstance(v, dict) and k not in ('read_fn', 'write_fn', 'read_function'):
+            for k2, v2 in list(v.items()):
+                if isinstance(v2, list):
+                    v2.append(1.0)
+                elif isinstance(v2, np.ndarray):
+                    v2[...] = 7
+            v['c01 scribble'] = 1
+    dat.grid.add_rocktype(rocktype('scrib'))
+    dat.grid.add_block(t2block('scr 1', 1.0, dat.grid.rocktype['scrib']))
+
+
+def _history(flavour):
+    """Same file read twice; another file read in between; fresh objects before / after reads and after
+    in-place edits of another object.  Every comparison is between two objects of this process, so the
+    verdict does not depend on what the process did before."""
+    import t2data
+    viol, info = [], {'written': False, 'comparisons': 0, 'steps_done': []}
+    inp = 'history:' + flavour[0]
+    d = _workdir()
+
+    def differ(tag, a, b, what):
+        info['comparisons'] += 1
+        info['steps_done'].append(tag)
+        diffs = t2canon.compare(a, b, limit=12)
+        if any(path[0] == 'canon' for path, x, y in diffs):
+            diffs = [x for x in diffs if x[0][0] == 'canon']    # the raw attributes only where the projection is blind
+        seen = set()
+        for path, x, y in diffs:
+            cls = t2canon.field_class(path)
+            if cls in seen:
+                continue
+            seen.add(cls)
+            viol.append(('C01|history|%s|%s|%s' % (tag, cls, inp), '%s: %s' % (what, t2canon.show([(path, x, y)]))))
+
+    with _quiet():
+        fresh0 = _projection(t2data.t2data())
+        M, order = base_model(flavour)
+        fa, fb = os.path.join(d, 'w1', 'model.dat'), os.path.join(d, 'w2', 'model.dat')
+        obj = build(M, order)
+        obj.write(fa)
+        info['written'] = True
+        fresh_w = _projection(t2data.t2data())
+        differ('fresh-object-after-write', fresh0, fresh_w, 'a new object created after another object was written '
+               'differs from one created before')
+        M2, order2 = apply_dev(*(apply_dev(M, order, ('len', 'default_incons', 3)) + (('len', 'timestep', 11),)))
+        build(M2, order2).write(fb)
+        ra1 = t2data.t2data(fa)
+        ca1 = _projection(ra1)
+        ra2 = t2data.t2data(fa)
+        ca2 = _projection(ra2)
+        differ('second-read-of-same-file', ca1, ca2, 'the same file read twice in one process gives different objects')
+        differ('object-changed-by-later-read', ca1, _projection(ra1), 'an object changed when the file was read '
+               'again into another object')
+        differ('read-vs-written', {'canon': M}, {'canon': ca1['canon']}, 'first read of the written base model')
+        rb = t2data.t2data(fb)
+        differ('read-of-second-file', {'canon': M2}, {'canon': t2canon.canon(rb)}, 'a file read after another file '
+               'was read does not give its own content')
+        ra3 = t2data.t2data(fa)
+        differ('read-after-other-file', ca1, _projection(ra3), 'the file read again after another file was read '
+               'gives a different object')
+        fresh1_obj = t2data.t2data()
+        differ('fresh-object-after-reads', fresh0, _projection(fresh1_obj), 'a new object created after files were '
+               'read differs from one created before')
+        _scribble(fresh1_obj)
+        _scribble(ra3)
+        differ('fresh-object-after-edits', fresh0, _projection(t2data.t2data()), 'a new object created after another '
+               'object was edited in place differs from one created before')
+        differ('read-after-edits', ca1, _projection(t2data.t2data(fa)), 'the file read after other objects were '
+               'edited in place gives a different object')
     info['outcome'] = 'ok' if not viol else 'violations'
     return viol, info
 
